@@ -24,6 +24,9 @@ use super::{
     ForeignKeysPaths, StringIndexer,
 };
 
+/// Maximum nesting of subkeys, the same limit `serde_json` applies to nested objects.
+const MAX_SUBKEYS_DEPTH: usize = 128;
+
 #[derive(Debug, Clone, PartialEq)]
 pub enum ParsedValue {
     Default,
@@ -1014,6 +1017,15 @@ impl<'de> serde::de::Visitor<'de> for ParsedValueSeed<'_> {
     {
         if self.in_range {
             return Err(serde::de::Error::custom(Error::RangeSubkeys));
+        }
+
+        // serde_json and serde_yaml stop at 128 levels on their own, the JSON5 reader has no limit
+        // and the recursion through the seeds would end in a stack overflow.
+        if self.key_path.path.len() >= MAX_SUBKEYS_DEPTH {
+            return Err(serde::de::Error::custom(format!(
+                "subkeys nested deeper than {} levels are not supported",
+                MAX_SUBKEYS_DEPTH
+            )));
         }
 
         let map_de = MapAccessDeserializer::new(map);
